@@ -1,3 +1,3 @@
 Require Import Extraction ExtrOcamlBasic.
-Require Import P.ParseModel P.ParsePrintModel.
-Extraction "parse_model.ml" next_type pr.
+Require Import P.ParseModel P.ParsePrintModel P.ParseDecl.
+Extraction "parse_model.ml" next_type pr parse_data.
